@@ -573,8 +573,10 @@ fn rewrite_tuple_pat(
     let mut pat_vec: Vec<_> = pats.iter().map(TuplePatField::Pat).collect();
 
     let wildcard_suffix_len = count_wildcard_suffix_len(context, &pat_vec, span, shape);
-    let (pat_vec, span) = if context.config.condense_wildcard_suffixes() && wildcard_suffix_len >= 2
-    {
+    // A tuple pattern may contain one `..` only: do not introduce a second one.
+    let has_rest = pat_vec.iter().any(|p| p.is_dotdot());
+    let condense = context.config.condense_wildcard_suffixes() && !has_rest;
+    let (pat_vec, span) = if condense && wildcard_suffix_len >= 2 {
         let new_item_count = 1 + pat_vec.len() - wildcard_suffix_len;
         let sp = pat_vec[new_item_count - 1].span();
         let snippet = context.snippet(sp);
